@@ -366,5 +366,6 @@ def run(chk):
     from . import clones
     clones.rule_defuse(chk, 'D1', 'D2', ('mgr',), floor=50)
     clones.rule_tables(chk, 'N5', ('mgr',), floor=20)
+    clones.rule_unreachable(chk, 'U1', ('mgr',), floor=20)
     from . import twins
     twins.rule_common_flag(chk, P, 'Z1', floor=6)
